@@ -1,4 +1,4 @@
-"""C19 -- pattern matching and restructuring (clauses R19.1-R19.9)."""
+"""C19 -- pattern matching and restructuring (clauses R19.1-R19.10)."""
 from __future__ import annotations
 
 import ast
@@ -138,6 +138,7 @@ def check(ctx, res) -> None:
     _pure_filter_rule(ctx, res)
     _paren_preserving_rule(ctx, res)
     _indent_anchor_rule(ctx, res)
+    _single_expression_pattern_rule(ctx, res)
 
 
 def _check_main(ctx, res) -> None:
@@ -458,3 +459,36 @@ def _indent_anchor_rule(ctx, res) -> None:
                 f"the replacement is re-indented relative to `{ast.unparse(c.args[0])}`, the END of the match: when the match spans several lines whose last line "
                 "is indented differently from the first (an if/else, a call with a continuation line) the continuation lines of the goal get the wrong "
                 "indentation and the result does not parse", function=f.qualname)
+
+
+def _single_expression_pattern_rule(ctx, res) -> None:
+    """R19.10: a pattern is searched as ONE expression node only when it consists of exactly one statement, and that
+    statement is an expression statement.  Reducing `${f}(${x})` + newline + `${y} = len(${x})` to its first expression makes
+    every call a match, reports regions of one statement, and leaves the wildcards of the other statements unbound."""
+    idx = ctx.idx
+    f = idx.need_func("rope.refactor.similarfinder.RawSimilarFinder._create_pattern")
+    cfg = CFG(f.node)
+    n = 0
+    for nd in cfg.nodes:
+        if nd.kind != "stmt" or not isinstance(nd.ast, (ast.Return, ast.Assign)) or nd.ast.value is None:
+            continue
+        v = nd.ast.value
+        if not (isinstance(v, ast.Attribute) and v.attr == "value" and isinstance(v.value, ast.Subscript) and not isinstance(v.value.slice, ast.Slice)):
+            continue
+        n += 1
+        lst = ast.unparse(v.value.value)
+
+        def exactly_one(t, pol) -> bool:
+            if isinstance(t, ast.Compare) and len(t.ops) == 1 and isinstance(t.left, ast.Call) and call_name(t.left) == "len" \
+                    and t.left.args and ast.unparse(t.left.args[0]) == lst and isinstance(t.comparators[0], ast.Constant):
+                return (isinstance(t.ops[0], ast.Eq) and t.comparators[0].value == 1 and pol) or \
+                    (isinstance(t.ops[0], ast.NotEq) and t.comparators[0].value == 1 and not pol)
+            return False
+
+        ok = any(exactly_one(t, pol) for t, pol in cfg.guards(nd.id))
+        res.add("R19.10", f"_create_pattern|single-statement#{n}", ok, f"{f.unit.rel}:{nd.lineno}",
+                "the pattern is reduced to an expression node only when it is exactly one statement" if ok else
+                f"the pattern is reduced to `{ast.unparse(v)}` without the test that it has exactly ONE statement: a pattern of several statements that begins "
+                "with an expression statement is searched as that first expression alone -- non-instances are reported, regions cover one statement, and the "
+                "wildcards of the remaining statements stay unbound", function=f.qualname)
+    res.floor("R19.10", "reductions of a pattern to an expression node", n, 1)
